@@ -181,6 +181,11 @@ def gen_query(rng, tier):
     case["q"] = q
     case["ev"] = [[v, rng.randrange(case["card"][v])] for v in ev]
     case["joint"] = rng.random() < .6
+    case["virt"] = []
+    if case["kind"] == "bn" and all(isinstance(gen.lab(x), str) for x in case["nodes"]) and rng.random() < .45:
+        cand = [v for v in range(n) if v not in ev]
+        for v in rng.sample(cand, rng.randint(1, min(2, len(cand)))):
+            case["virt"].append([v, [rs(Fraction(rng.randint(0, 10), 10)) for _ in range(case["card"][v])]])
     return case
 
 
@@ -198,13 +203,20 @@ def run_query(case, drv):
             return skip("factor graphs cannot hold two equal factors")
         model = build(case, kind)
         fs = mnet.model_factors(case)
+    virt = case.get("virt") or []
+    fs = fs + [{"scope": [v], "card": [card[v]], "vals": L} for v, L in virt]
     m = drv.call("bn_posterior", fs=fs, vars=list(range(n)), cards=card, q=case["q"], ev=case["ev"])
     if Fraction(m["pe"]) == 0:
         return skip("zero evidence mass")
     evidence = {pn[v]: gen.lab(labels[v][i]) for v, i in case["ev"]}
-    tags = dict(kind=kind, joint=case["joint"], nev=len(case["ev"]), dup=case.get("dup", False))
+    tags = dict(kind=kind, joint=case["joint"], nev=len(case["ev"]), dup=case.get("dup", False), virt=len(virt))
+    kw = {}
+    if virt:
+        from pgmpy.factors.discrete import TabularCPD
+        kw["virtual_evidence"] = [TabularCPD(pn[v], card[v], [[float(Fraction(x))] for x in L],
+                                             state_names={pn[v]: [gen.lab(l) for l in labels[v]]}) for v, L in virt]
     try:
-        res = BeliefPropagation(model).query([pn[v] for v in case["q"]], evidence=evidence or None, joint=case["joint"], show_progress=False)
+        res = BeliefPropagation(model).query([pn[v] for v in case["q"]], evidence=evidence or None, joint=case["joint"], show_progress=False, **kw)
     except Exception as e:
         return fail(f"BeliefPropagation.query on {kind} with evidence {evidence} raised {type(e).__name__}: {e}", **tags)
     # non-BN models return unnormalised results from the elimination engine: compare up to normalisation
@@ -316,8 +328,91 @@ def run_history(case, drv):
     return ok(nontrivial=len(case["ops"]) >= 2, **tags)
 
 
+# ----------------------------------------------------------------------------- message passing on loop-free factor graphs
+def gen_fgtree(rng, tier):
+    """a factor graph WITHOUT loops: start from one variable; every new factor hangs on one existing variable and brings 0-2 new ones"""
+    nv = 1
+    card = [rng.choice([2, 2, 3])]
+    factors = []
+    for _ in range(rng.randint(1, 5)):
+        anchor = rng.randrange(nv)
+        new = list(range(nv, nv + rng.choice([0, 1, 1, 2])))
+        if not new and any(f["scope"] == [anchor] for f in factors):
+            continue            # two equal-scope unary factors may be value-equal: factor graphs cannot hold equal factors
+        card += [rng.choice([2, 2, 3]) for _ in new]
+        nv += len(new)
+        scope = [anchor] + new
+        rng.shuffle(scope)
+        size = 1
+        for v in scope:
+            size *= card[v]
+        style = rng.choice([None, None, "zeros"])
+        factors.append({"scope": scope, "vals": [rs(x) for x in gen.rand_vals(rng, size, style)]})
+    if not factors:
+        return None
+    names = gen.node_names(rng, nv, "str")
+    q = rng.sample(range(nv), rng.randint(1, min(3, nv)))
+    rest = [v for v in range(nv) if v not in q]
+    ev = rng.sample(rest, min(len(rest), rng.choice([0, 1, 1, 2])))
+    virt = []
+    if rng.random() < .3:
+        cand = [v for v in range(nv) if v not in ev]
+        for v in rng.sample(cand, 1):
+            virt.append([v, [rs(Fraction(rng.randint(1, 10), 10)) for _ in range(card[v])]])
+    return {"nodes": names, "card": card, "labels": [list(range(c)) for c in card], "factors": factors, "q": q,
+            "ev": [[v, rng.randrange(card[v])] for v in ev], "virt": virt, "messages": rng.random() < .3}
+
+
+def run_fgtree(case, drv):
+    """BeliefPropagationWithMessagePassing.query on a loop-free factor graph = the exact posterior marginal of every queried variable"""
+    from pgmpy.models import FactorGraph
+    from pgmpy.inference.ExactInference import BeliefPropagationWithMessagePassing
+    from pgmpy.factors.discrete import TabularCPD
+    names, card, labels = case["nodes"], case["card"], case["labels"]
+    pn = [gen.lab(x) for x in names]
+    n = len(names)
+    fs = [gen.factor_model(card, f) for f in case["factors"]]
+    if any(fs[i] == fs[j] for i in range(len(fs)) for j in range(i)):
+        return skip("equal factors")
+    extra = [{"scope": [v], "card": [card[v]], "vals": L} for v, L in case["virt"]]
+    g = FactorGraph()
+    g.add_nodes_from(pn)
+    phis = [gen.factor_to_pgmpy(names, card, labels, f) for f in case["factors"]]
+    try:
+        for phi in phis:
+            g.add_factors(phi)
+            g.add_edges_from([(v, phi) for v in phi.variables])
+        bp = BeliefPropagationWithMessagePassing(g)
+    except Exception as e:
+        return fail(f"building the loop-free factor graph raised {type(e).__name__}: {e}")
+    tags = dict(nq=len(case["q"]), nev=len(case["ev"]), virt=bool(case["virt"]), n=n)
+    kw = {}
+    if case["virt"]:
+        kw["virtual_evidence"] = [TabularCPD(pn[v], card[v], [[float(Fraction(x))] for x in L]) for v, L in case["virt"]]
+    try:
+        res = bp.query([pn[v] for v in case["q"]], evidence={pn[v]: i for v, i in case["ev"]} or None, get_messages=case["messages"], **kw)
+        if case["messages"]:
+            res = res[0]
+    except Exception as e:
+        m0 = drv.call("bn_posterior", fs=fs + extra, vars=list(range(n)), cards=card, q=[case["q"][0]], ev=case["ev"])
+        if Fraction(m0["pe"]) == 0:
+            return skip("zero evidence mass")
+        return fail(f"BeliefPropagationWithMessagePassing.query raised {type(e).__name__}: {e}", **tags)
+    for v in case["q"]:
+        m = drv.call("bn_posterior", fs=fs + extra, vars=list(range(n)), cards=card, q=[v], ev=case["ev"])
+        if Fraction(m["pe"]) == 0:
+            return skip("zero evidence mass")
+        if pn[v] not in res:
+            return fail(f"no result for {pn[v]}: {list(res)}", **tags)
+        err = proportional(res[pn[v]], m["post"], names, card, labels)
+        if err:
+            return fail(f"message passing posterior of {pn[v]} given {case['ev']} (virtual {case['virt']}): {err}", **tags)
+    return ok(nontrivial=n > 1, **tags)
+
+
 STREAMS = [
     Stream("calibrate", gen_calib, run_calib, quick=500, thorough=6000),
     Stream("query", gen_query, run_query, quick=900, thorough=10000),
     Stream("history", gen_history, run_history, quick=500, thorough=5000),
+    Stream("fg_message_passing", gen_fgtree, run_fgtree, quick=300, thorough=3000),
 ]
